@@ -105,6 +105,13 @@ class Scenario:
             w.write(os.path.join(w.items[0], 'new'), 9, 500)
             if name == 'append':
                 self.t = w.now + 60
+            elif name == 'bigfile':
+                # enough incompressible data for the compressor to write to data.tar.zst while files are still being
+                # added (with small trees every write happens at the end, in finish)
+                self.t = w.now + 60
+                with open(os.path.join(w.items[0], 'big'), 'wb') as f:
+                    f.write(random.Random(sid).randbytes(1200000))
+                w.write(os.path.join(w.items[0], 'zlast'), 11, 700)
             elif name == 'rotate':
                 self.t = w.now + hist.DAY
             elif name == 'abandoned':
@@ -275,7 +282,7 @@ def check(ctx):
     plan_only = None
     if ctx.replay:
         plan_only = json.load(open(ctx.replay)).get('case', {}).get('case')
-    names = ['first', 'append', 'rotate', 'abandoned', 'collision']
+    names = ['first', 'append', 'rotate', 'abandoned', 'collision', 'bigfile']
     stats = {}
     for sid, name in enumerate(names):
         if plan_only and plan_only.get('scenario') != name:
@@ -300,6 +307,8 @@ def check(ctx):
                         for m in ['kb', 'ka'] + errs:
                             plan.append((n, m, 'same-day' if (n + len(m)) % 2 else 'next-day'))
                     else:
+                        if name == 'bigfile' and rec['call'] == 'write' and i % 4 != ctx.seed % 4:
+                            continue
                         if mut or rec['call'] in ('opendir', 'flock') or i % 5 == ctx.seed % 5:
                             plan.append((n, 'kb' if not mut else ['kb', 'ka'][n % 2], ['same-day', 'next-day'][(n // 2) % 2]))
                             plan.append((n, errs[(n + ctx.seed) % 3], ['next-day', 'same-day'][(n // 2) % 2]))
@@ -338,7 +347,7 @@ def check(ctx):
     ctx.coverage.update({
         'evaluations': len(results),
         'distinct_nontrivial': len({(r['scenario'], r['n'], r['mode']) for r in results if r.get('call')}),
-        'rule': 'scenarios first / append / rotate (old group removed) / abandoned temporary / same-second collision; kill before, kill after, ENOSPC, EIO, EACCES at storage call #n '
+        'rule': 'scenarios first / append / rotate (old group removed) / abandoned temporary / same-second collision / a tree big enough for writes to the data file while files are being added; kill before, kill after, ENOSPC, EIO, EACCES at storage call #n '
                 '(quick: every mutating call, every opendir, the flock and a 1-in-5 stride of the others, one kill and one errno each; thorough: every call x 5 modes); '
                 'each followed by a same-day or next-day run; non-trivial = the injected call was reached',
         'samples': [{k: v for k, v in r.items() if k in ('scenario', 'n', 'mode', 'call', 'rc', 'rc2', 'published', 'temporaries_after')} for r in results[:3]],
